@@ -69,6 +69,9 @@ int parse_ifdef_ignore(AsmContext *asm_context, int ignore_section)
 {
   int ret;
 
+  // ifdef_ignore() returns 0 at the block's .endif, 2 at its .else.
+  // assemble() returns 4 at the block's .endif, 2 at its .else.
+
   if (ignore_section == 1)
   {
     ret = ifdef_ignore(asm_context);
@@ -76,6 +79,17 @@ int parse_ifdef_ignore(AsmContext *asm_context, int ignore_section)
     if (ret == 2)
     {
       ret = asm_context->assemble();
+
+      if (ret == 4)
+      {
+        ret = 0;
+      }
+        else
+      if (ret != -1)
+      {
+        print_error(asm_context, "Missing endif");
+        ret = -1;
+      }
     }
   }
     else
@@ -85,6 +99,23 @@ int parse_ifdef_ignore(AsmContext *asm_context, int ignore_section)
     if (ret == 2)
     {
       ret = ifdef_ignore(asm_context);
+
+      if (ret == 2)
+      {
+        print_error(asm_context, "More than one else in a conditional");
+        ret = -1;
+      }
+    }
+      else
+    if (ret == 4)
+    {
+      ret = 0;
+    }
+      else
+    if (ret != -1)
+    {
+      print_error(asm_context, "Missing endif");
+      ret = -1;
     }
   }
 
